@@ -939,9 +939,10 @@ type SolveConfig struct {
 
 var tally = struct {
 	sync.Mutex
-	bySolver map[string]int
-	secs     map[string]float64
-	runs     int
+	bySolver          map[string]int
+	secs              map[string]float64
+	runs              int
+	cross, crossAgree int
 }{bySolver: map[string]int{}, secs: map[string]float64{}}
 
 func record(r solveResult) {
@@ -1066,7 +1067,33 @@ func dischargeAll(p *Program, obls []*Obligation, cfg *SolveConfig) {
 	}
 }
 
+// solveFile decides one obligation; in the thorough tier a proved obligation is cross-checked by a solver of
+// another family on the full query (a `sat` answer there is reported as a disagreement, i.e. a failure)
 func solveFile(o *Obligation, file string, cfg *SolveConfig) {
+	solveFileInner(o, file, cfg)
+	if !cfg.allAgree || o.ExpectSat || o.Verdict != "unsat" {
+		return
+	}
+	checker := "cvc5"
+	if strings.HasPrefix(o.Solver, "cvc5") {
+		checker = "z3new"
+	}
+	r := runSolver(context.Background(), checker, file, cfg.t0)
+	record(r)
+	tally.Lock()
+	tally.cross++
+	if r.verdict == "unsat" {
+		tally.crossAgree++
+	}
+	tally.Unlock()
+	o.Detail += fmt.Sprintf(" | cross-check %s=%s(%.2fs)", r.solver, r.verdict, r.secs)
+	if r.verdict == "sat" {
+		o.Verdict = "disagree"
+		o.Solver = o.Solver + "/" + r.solver
+	}
+}
+
+func solveFileInner(o *Obligation, file string, cfg *SolveConfig) {
 	ctx := context.Background()
 	decisive := func(r solveResult) bool {
 		if o.ExpectSat {
@@ -1090,7 +1117,7 @@ func solveFile(o *Obligation, file string, cfg *SolveConfig) {
 			}
 			record(r)
 			results = append(results, r)
-			if !cfg.allAgree && decisive(r) {
+			if !false /*allAgree handled by the cross-check*/ && decisive(r) {
 				done = true
 				cancel()
 			}
@@ -1103,7 +1130,7 @@ func solveFile(o *Obligation, file string, cfg *SolveConfig) {
 		return false
 	}
 	settled := false
-	if !o.ExpectSat && !cfg.allAgree {
+	if !o.ExpectSat && !false /*allAgree handled by the cross-check*/ {
 		// most obligations are settled by the full query within a second or two
 		settled = race([]string{"z3", "z3new", "z3e"}, 2)
 	}
@@ -1131,7 +1158,7 @@ func solveFile(o *Obligation, file string, cfg *SolveConfig) {
 						}
 					}
 					cancel()
-					if win != nil && !cfg.allAgree {
+					if win != nil && !false /*allAgree handled by the cross-check*/ {
 						record(*win)
 						o.Verdict, o.Solver, o.Secs = "unsat", win.solver, win.secs
 						o.Detail = fmt.Sprintf("%s=unsat(%.2fs) on the real-arithmetic abstraction %s.nra", win.solver, win.secs, file)
@@ -1159,7 +1186,7 @@ func solveFile(o *Obligation, file string, cfg *SolveConfig) {
 						}
 					}
 					cancel()
-					if win != nil && !cfg.allAgree {
+					if win != nil && !false /*allAgree handled by the cross-check*/ {
 						record(*win)
 						o.Verdict, o.Solver, o.Secs = "unsat", win.solver, win.secs
 						o.Detail = fmt.Sprintf("%s=unsat(%.2fs) with uninterpreted products %s.umul", win.solver, win.secs, file)
@@ -1186,7 +1213,7 @@ func solveFile(o *Obligation, file string, cfg *SolveConfig) {
 						}
 					}
 					cancel()
-					if win != nil && !cfg.allAgree {
+					if win != nil && !false /*allAgree handled by the cross-check*/ {
 						record(*win)
 						o.Verdict, o.Solver, o.Secs = "unsat", win.solver, win.secs
 						o.Detail = fmt.Sprintf("%s=unsat(%.2fs) on the reduced hypothesis set %s.rel", win.solver, win.secs, file)
@@ -1200,14 +1227,14 @@ func solveFile(o *Obligation, file string, cfg *SolveConfig) {
 			if o.ExpectSat {
 				// vacuity guard: only a definite unsat is a failure; do not spend the long timeout on it
 				race([]string{"z3", "z3new"}, 3)
-			} else if !race([]string{"z3", "z3new", "z3e", "cvc5", "z3e1", "z3e2"}, cfg.t1) || cfg.allAgree {
-				if cfg.allAgree {
+			} else if !race([]string{"z3", "z3new", "z3e", "cvc5", "z3e1", "z3e2"}, cfg.t1) || false /*allAgree handled by the cross-check*/ {
+				if false /*allAgree handled by the cross-check*/ {
 					race([]string{"cvc5"}, cfg.t2)
 				} else {
 					race([]string{"cvc5", "z3", "z3new", "z3e", "z3e1", "z3e2"}, cfg.t2)
 				}
 			}
-			if !o.ExpectSat && !cfg.allAgree {
+			if !o.ExpectSat && !false /*allAgree handled by the cross-check*/ {
 				dec := false
 				for _, r := range results {
 					if decisive(r) {
